@@ -60,7 +60,7 @@ prop("C13",
 
 prop("C03",
      ["C03_only_key_waits_block", "C03_drop_always_completes", "C03_stream_drops_valueless_guard", "C03_absent_key_no_wait", "C03_free_key_no_wait", "C03_free_mutex_has_no_waiters",
-      "C03_release_hands_over", "C03_handed_waiter_runs", "C03_waiter_never_detached", "C03_blocked_only_by_client_guards", "C03_no_library_deadlock", "C03_never_stuck", "C03_drain_witness", "C03_witness"],
+      "C03_release_hands_over", "C03_handed_waiter_runs", "C03_waiter_never_detached", "C03_blocked_only_by_client_guards", "C03_no_library_deadlock", "C03_never_stuck", "C03_draining_always_terminates", "C03_draining_ends_at_rest", "C03_drain_witness", "C03_witness"],
      ["C14.lost_wakeup", "C03.", "C13.hang", "C03.stream_stall"],
      [fam("evict","H",1500,"monitor"), fam("evict","L",1500,"monitor"), fam("mix","L",1000,"monitor"), fam("dfs-lock3","H",3000), fam("dfs-lock2","L",4000), fam("nolimit","H",1500), fam("nolimit","L",1500), fam("dfs-cancel","H",4000), fam("dfs-stream","L",3000), fam("stream","H",800), fam("scale-stream","L",4,"monitor"), fam("scale-stream","H",4,"monitor"), fam("fine-nolimit","H",1500), fam("wide","H",600,"monitor")],
      [fam("evict","H",40000,"monitor"), fam("evict","L",40000,"monitor"), fam("mix","L",40000,"monitor"), fam("mix","H",40000,"monitor"), fam("dfs-lock3","H",200000), fam("dfs-lock3","L",200000), fam("dfs-lock2","L",200000), fam("nolimit","H",40000), fam("nolimit","L",40000), fam("dfs-cancel","H",200000), fam("dfs-stream","L",200000), fam("stream","H",20000), fam("stream","L",20000), fam("scale-stream","L",64,"monitor"), fam("scale-stream","H",64,"monitor"), fam("fine-nolimit","H",40000), fam("fine-stream","L",40000), fam("wide","H",20000,"monitor"), fam("wide-evict","L",20000,"monitor")],
@@ -127,7 +127,7 @@ TEXT = {
  "C02": "Theorem: no model step other than an operation on a guard (or consuming the container) changes any stored value, a guard operation only touches its own key, and a new guard reports the stored value; co-simulation compares every value the implementation reports; shadow-map monitor on the implementation.",
  "C04": "Theorem: in every reachable model state the key set equals valued keys + keys with a live guard + keys some in-flight call holds a handle on; quiescent => exactly the valued keys; count/keys report that set. Co-simulation compares the key set and replica counts after every atomic segment; monitor recomputes the expected set from the harness' own bookkeeping.",
  "C12": "Theorem: in a reachable quiescent state into_entries_unordered is enabled, does not panic and returns exactly one pair per valued key with the stored value; co-simulation + multiset monitor on runs that end with consume.",
- "C03": "PARTIAL (protocol level). Theorems: no library-made deadlock as a reachability statement (C03_no_library_deadlock: from every reachable state a run to the state of rest exists that starts and cancels no lock call, so every waiter obtains its key once the guards in front of it are dropped); every in-flight call that is not waiting for a per-key mutex is enabled in every reachable state; free/absent keys are acquired without waiting; a free mutex has no waiters; release hands the key to the oldest waiter; a handed waiter can run; waiters are never detached; if nobody can move, every waiter waits for a client-owned guard. Co-simulation compares the implementation's set of blocked agents with the model's after every segment (lost wake-ups show as a mismatch); watchdog/self-deadlock detection in the harness. Not shown: that the runtime delivers wake-ups in finite time.",
+ "C03": "PARTIAL (protocol level). Theorems: no library-made deadlock as a reachability statement (C03_no_library_deadlock: from every reachable state a run to the state of rest exists that starts and cancels no lock call, so every waiter obtains its key once the guards in front of it are dropped; C03_draining_always_terminates: every run of that draining client is finite under every schedule, and it ends at rest); every in-flight call that is not waiting for a per-key mutex is enabled in every reachable state; free/absent keys are acquired without waiting; a free mutex has no waiters; release hands the key to the oldest waiter; a handed waiter can run; waiters are never detached; if nobody can move, every waiter waits for a client-owned guard. Co-simulation compares the implementation's set of blocked agents with the model's after every segment (lost wake-ups show as a mismatch); watchdog/self-deadlock detection in the harness. Not shown: that the runtime delivers wake-ups in finite time.",
  "C05": "Theorems: every guard operation returns and stores what the plain map would and touches nothing else; a lock call of any shape run to completion on a free key returns a guard with the map's value and a state that does not depend on the shape (variants interchangeable); a try on a locked/reserved key returns None and changes nothing a map + locked set can see. Co-simulation on single-threaded histories (family seq: every call runs to completion, all eight variants incl. borrowed/owned chosen per call) compares every return value with the model; shadow-map monitor.",
  "C06": "Theorems: cancelling a pending async_lock (queued or handed) or dropping any pending per-entry future of a stream is always enabled, panics never, removes the call, reserves nothing, changes no value/guard and re-establishes the invariant; quiescent states contain exactly the valued keys. Co-simulation over exhaustive interleavings of cancel points x the other party's steps; monitors for leaked keys, panics and consume.",
  "C07": "Theorems: the callback is invoked only by a soft-limited call when len >= N, with a non-empty list of at most len-(N-1) distinct, previously unlocked, valued entries (exactly the first ones in iteration order), each now held by the offered guard and reported with its stored value; none without a limit or below it; when the call proceeds the container has at most max(N, non-evictable+1) entries. Co-simulation + callback-argument monitor. A round with a cooperative callback lowers the number of evictable entries and the loop runs at most that many rounds (theorems conditional on the round's label sequence being executed).",
